@@ -49,12 +49,14 @@ theorem inv_init (all : List Delivery) (hwf : ∀ d ∈ all, d.WF) :
     Inv all { future := all.flatMap Delivery.frames } :=
   ⟨rfl, Or.inl ⟨rfl, all, by simp, by simp, hwf⟩⟩
 
+theorem genStartNeeds : Gen.Loops.buildStartNeeds = 2 := by decide
+
 theorem step_inv (all : List Delivery) (s s' : S) (a : Act) (h : Inv all s) (hs : step s a = some s') :
     Inv all s' := by
   obtain ⟨hdrop, h⟩ := h
   cases a with
   | append =>
-    simp only [step] at hs
+    simp only [step, stepN] at hs
     split at hs
     · rename_i f rest hf
       cases hs
@@ -66,11 +68,13 @@ theorem step_inv (all : List Delivery) (s s' : S) (a : Act) (h : Inv all s) (hs 
     · cases hs
   | start =>
     rcases h with ⟨hph, ds, hrest, hout, hwf⟩ | ⟨d, ds, k, hph, hrest, hout, hwf⟩
-    · simp only [step, hph] at hs
+    · simp only [step, stepN, hph, genStartNeeds] at hs
       rcases hin : s.inbound with _ | ⟨a, _ | ⟨b, rest⟩⟩
-      · rw [hin] at hs; cases hs
-      · rw [hin] at hs; cases hs
+      · rw [hin] at hs; simp at hs
+      · rw [hin] at hs; simp at hs
       · rw [hin] at hs hrest
+        simp only [List.length_cons] at hs
+        rw [if_neg (by omega)] at hs
         rcases ds with _ | ⟨d, ds'⟩
         · simp at hrest
         · simp only [List.flatMap_cons, Delivery.frames, List.cons_append, List.cons.injEq] at hrest
@@ -80,13 +84,15 @@ theorem step_inv (all : List Delivery) (s s' : S) (a : Act) (h : Inv all s) (hs 
           cases hs
           refine ⟨hdrop, Or.inr ⟨d, ds', 0, by simp, ?_, hout, hwf d (by simp), fun d' hd' => hwf d' (by simp [hd'])⟩⟩
           simpa using hrest'
-    · simp only [step, hph] at hs
-      cases hs
+    · simp only [step, stepN, hph] at hs
+      split at hs
+      · cases hs
+      · cases hs
   | piece =>
     rcases h with ⟨hph, ds, hrest, hout, hwf⟩ | ⟨d, ds, k, hph, hrest, hout, hwfd, hwf⟩
-    · simp only [step, hph] at hs
+    · simp only [step, stepN, hph] at hs
       cases hs
-    · simp only [step, hph] at hs
+    · simp only [step, stepN, hph] at hs
       rcases hin : s.inbound with _ | ⟨f, rest⟩
       · rw [hin] at hs; cases hs
       · rw [hin] at hs hrest
@@ -123,9 +129,9 @@ theorem step_inv (all : List Delivery) (s s' : S) (a : Act) (h : Inv all s) (hs 
         · cases hs
   | finish =>
     rcases h with ⟨hph, ds, hrest, hout, hwf⟩ | ⟨d, ds, k, hph, hrest, hout, hwfd, hwf⟩
-    · simp only [step, hph] at hs
+    · simp only [step, stepN, hph] at hs
       cases hs
-    · simp only [step, hph] at hs
+    · simp only [step, stepN, hph] at hs
       split at hs
       · cases hs
       · rename_i hncont
